@@ -38,6 +38,7 @@ type Stream struct {
 	pos    int
 	rng    splitmix
 	replay bool
+	prefix []uint64 // record mode: forced values for the first draws (enumeration)
 }
 
 // Tape is the collection of streams of one run.
@@ -50,6 +51,16 @@ type Tape struct {
 // NewTape creates a recording tape for a seed.
 func NewTape(seed uint64) *Tape {
 	return &Tape{Seed: seed, streams: map[string]*Stream{}}
+}
+
+// NewTapeWithPrefix creates a recording tape whose streams start with forced
+// values; the enumeration tiers use it to pin fault kind, place and pacing.
+func NewTapeWithPrefix(seed uint64, prefix map[string][]uint64) *Tape {
+	t := NewTape(seed)
+	for k, v := range prefix {
+		t.S(k).prefix = append([]uint64(nil), v...)
+	}
+	return t
 }
 
 // ReplayTape creates a tape that replays recorded streams.
@@ -117,6 +128,9 @@ func (s *Stream) N(n int) int {
 		return int(s.raw() % uint64(n))
 	}
 	v := s.rng.next() % uint64(n)
+	if s.pos < len(s.prefix) {
+		v = s.prefix[s.pos] % uint64(n)
+	}
 	s.vals = append(s.vals, v)
 	s.pos++
 	return int(v)
@@ -128,6 +142,9 @@ func (s *Stream) U64() uint64 {
 		return s.raw()
 	}
 	v := s.rng.next()
+	if s.pos < len(s.prefix) {
+		v = s.prefix[s.pos]
+	}
 	s.vals = append(s.vals, v)
 	s.pos++
 	return v
@@ -146,6 +163,9 @@ func (s *Stream) Chance(num, den int) bool {
 		return s.raw()%2 == 1
 	}
 	hit := s.rng.next()%uint64(den) < uint64(num)
+	if s.pos < len(s.prefix) {
+		hit = s.prefix[s.pos]%2 == 1
+	}
 	v := uint64(0)
 	if hit {
 		v = 1
@@ -184,6 +204,9 @@ func (s *Stream) Weighted(w ...int) int {
 			break
 		}
 		r -= x
+	}
+	if s.pos < len(s.prefix) {
+		idx = int(s.prefix[s.pos] % uint64(len(w)))
 	}
 	s.vals = append(s.vals, uint64(idx))
 	s.pos++
